@@ -403,43 +403,53 @@ func ruleCursorEncodingMirrorsSortMode(r *Report, rule string) {
 	info := fi.Pkg.TypesInfo
 	sig := fi.Obj.Type().(*types.Signature)
 	after := sig.Params().At(1)
-	raw, coded := 0, 0
+	g := buildCFG(info, fi.Decl.Body)
+	seenCoded := map[string]bool{}
+	raw := 0
 	bad := ""
-	ast.Inspect(fi.Decl.Body, func(x ast.Node) bool {
-		cc, ok := x.(*ast.CaseClause)
-		if !ok {
-			return true
-		}
-		label := "default"
-		if len(cc.List) > 0 {
-			label = exprStr(cc.List[0])
-		}
-		for _, st := range cc.Body {
-			rs, ok := st.(*ast.ReturnStmt)
-			if !ok || len(rs.Results) != 1 {
-				continue
-			}
-			isRaw := objOf(info, rs.Results[0]) == after
-			wantRaw := label == "default"
-			switch {
-			case strings.HasSuffix(label, "SortFieldAsNumber"), strings.HasSuffix(label, "SortFieldAsDate"), strings.HasSuffix(label, "SortGeoDistance"):
-				wantRaw = false
-			case strings.HasSuffix(label, "SortField"):
-				return true // outer case containing the inner switch
-			}
-			if isRaw {
-				raw++
-			} else {
-				coded++
-			}
-			if isRaw != wantRaw {
-				bad = label
-			}
+	var rets []*ast.ReturnStmt
+	inspectNoLit(fi.Decl.Body, func(x ast.Node) bool {
+		if rs, ok := x.(*ast.ReturnStmt); ok && len(rs.Results) == 1 {
+			rets = append(rets, rs)
 		}
 		return true
 	})
-	r.Ob(rule, fi.Name+"/raw-for-string,auto,id,score;coded-for-number,date,distance", fi.Decl.Pos(), bad == "" && raw >= 2 && coded >= 3,
-		fmt.Sprintf("sort keys of string/auto-mode field sorts, _id and _score are raw terms, so their cursor must be passed through unchanged; number/date/geo-distance keys are prefix-coded, so their cursor is re-encoded (mismatch at case %q; raw=%d coded=%d)", bad, raw, coded))
+	for _, rs := range rets {
+		isRaw := objOf(info, rs.Results[0]) == after
+		// which mode does the path to this return establish? (switch-case facts and == comparisons alike)
+		mode := ""
+		for _, f := range g.GuardsOf(rs) {
+			if !f.Truth {
+				continue
+			}
+			txt := exprStr(f.Expr)
+			switch {
+			case strings.Contains(txt, "SortGeoDistance"):
+				mode = "distance"
+			case strings.Contains(txt, "SortFieldAsNumber"):
+				mode = "number"
+			case strings.Contains(txt, "SortFieldAsDate"):
+				mode = "date"
+			}
+		}
+		if os.Getenv("VERIF_DEBUG") != "" {
+			fmt.Fprintf(os.Stderr, "DEBUG return %s facts=%s mode=%q\n", exprStr(rs.Results[0]), factsString(g.GuardsOf(rs)), mode)
+		}
+		if mode != "" {
+			if isRaw {
+				bad = mode + " cursor returned unchanged"
+			}
+			seenCoded[mode] = true
+		} else {
+			if !isRaw {
+				bad = "a cursor of a raw-keyed sort (string/auto field sort, _id, _score) is re-encoded by " + exprStr(rs.Results[0])
+			}
+			raw++
+		}
+	}
+	ok := bad == "" && raw >= 1 && seenCoded["distance"] && seenCoded["number"] && seenCoded["date"]
+	r.Ob(rule, fi.Name+"/raw-for-string,auto,id,score;coded-for-number,date,distance", fi.Decl.Pos(), ok,
+		fmt.Sprintf("sort keys of string/auto-mode field sorts, _id and _score are raw terms, so their cursor must be passed through unchanged; number/date/geo-distance keys are prefix-coded, so their cursor is re-encoded (%s; raw returns=%d coded modes=%v)", bad, raw, seenCoded))
 }
 
 // prevSibling returns the statement preceding n in its statement list.
